@@ -4,6 +4,7 @@ import (
 	"encoding/json"
 	"flag"
 	"fmt"
+	"go/types"
 	"os"
 	"path/filepath"
 	"sort"
@@ -27,7 +28,13 @@ func (e *Engine) newVC(k string, mode string) (*fnVC, error) {
 		c2.Mode = mode
 		con = &c2
 	}
-	v := &fnVC{e: e, fn: fn, con: con, P: newPrelude(con.Mode == "bv"), vals: map[ssa.Value]T{}, reach: map[*ssa.BasicBlock]T{}, memOut: map[*ssa.BasicBlock]map[string]T{}, cur: map[string]T{}, memSrt: map[string]string{}, oblCnt: map[string]int{}, tuples: map[ssa.Value][]T{}, usedContracts: map[string]bool{}, grounded: map[string]bool{}, closures: map[ssa.Value]*ssa.MakeClosure{}, rangeOf: map[*ssa.Range]ssa.Value{}}
+	P := newPrelude(con.Mode == "bv")
+	if pkg := e.typesPkg(modPrefix); pkg != nil {
+		if obj := pkg.Scope().Lookup("Error"); obj != nil {
+			P.errIface, _ = obj.Type().Underlying().(*types.Interface)
+		}
+	}
+	v := &fnVC{e: e, fn: fn, con: con, P: P, vals: map[ssa.Value]T{}, reach: map[*ssa.BasicBlock]T{}, memOut: map[*ssa.BasicBlock]map[string]T{}, cur: map[string]T{}, memSrt: map[string]string{}, oblCnt: map[string]int{}, tuples: map[ssa.Value][]T{}, usedContracts: map[string]bool{}, grounded: map[string]bool{}, closures: map[ssa.Value]*ssa.MakeClosure{}, rangeOf: map[*ssa.Range]ssa.Value{}}
 	return v, nil
 }
 
@@ -52,6 +59,15 @@ func (e *Engine) gen(k string, mode string, verbose bool) (v *fnVC, err error) {
 func oblProps(o *Obl, con *Contract) []string {
 	if strings.HasPrefix(o.Kind, "post.") && len(o.Props) > 0 {
 		return o.Props
+	}
+	if strings.HasPrefix(o.Kind, "post.") && len(con.TaggedOnly) > 0 {
+		var ps []string
+		for _, p := range con.Props {
+			if !hasStr(con.TaggedOnly, p) {
+				ps = append(ps, p)
+			}
+		}
+		return ps
 	}
 	if strings.HasPrefix(o.Kind, "rte.") || strings.HasPrefix(o.Kind, "dec.") {
 		if con.hasProp("C07") {
@@ -203,7 +219,7 @@ func (e *Engine) generate(keys []string, prop string, kinds string, dir string, 
 			if en.Unproved {
 				g.notes[con.Key] = append(g.notes[con.Key], "UNPROVED clause (written, not discharged, assumed by callers): ensures ["+en.Name+"] "+en.Text)
 			}
-			if !en.forProp(prop) {
+			if !en.forProp(prop) || (len(en.Props) == 0 && hasStr(con.TaggedOnly, prop)) {
 				continue
 			}
 			name := en.Name
